@@ -20,8 +20,8 @@ use crate::rtps_messages::submessages::ack_nack::AckNackSubmessage;
 use crate::transport::types::{Guid, ReliabilityKind};
 use alloc::string::String;
 
-// Kernel harnesses: matched lists of at most MAXN entries (a second entry makes every access go through a symbolic
-// pointer into the list buffer: measured out of memory at 10 GB).
+// Kernel harnesses: matched lists of exactly MAXN entries before the step (a second entry makes every access go through
+// a symbolic pointer into the list buffer: measured out of memory at 10 GB).
 const MAXN: usize = 1;
 
 fn standalone_writer() -> UserDefinedDataWriter {
@@ -98,27 +98,23 @@ fn any_sub_status(len: usize) -> SubscriptionMatchedStatus {
 }
 
 // @check props=C16 tier=quick
-// @desc writer-side kernel: UserDefinedDataWriter::remove_matched_subscription(handle) on a writer with 0-1 matched subscriptions and ANY consistent status counters, handle = one of the matched readers or an unmatched one: if matched, the entry (and only it) leaves the list, current_count == new list length, current_count_change drops by exactly 1, total_count / total_count_change are unchanged; if not matched nothing changes. Then PublicationMatchedStatus::get (what get_publication_matched_status returns) reports exactly those values and resets both change fields to 0 while current_count / total_count stay
-// @bounds 0-1 matched subscriptions; counters: total_count in [len, 10^6), total_count_change in [0,total], current_count_change in (-10^6, 10^6)
+// @desc writer-side kernel: UserDefinedDataWriter::remove_matched_subscription(handle) on a writer with 1 matched subscription and ANY consistent status counters, handle = one of the matched readers or an unmatched one: if matched, the entry (and only it) leaves the list, current_count == new list length, current_count_change drops by exactly 1, total_count / total_count_change are unchanged; if not matched nothing changes. Then PublicationMatchedStatus::get (what get_publication_matched_status returns) reports exactly those values and resets both change fields to 0 while current_count / total_count stay
+// @bounds 1 matched subscription; counters: total_count in [len, 10^6), total_count_change in [0,total], current_count_change in (-10^6, 10^6)
 // @assume invariant (re-established, asserted after the step): current_count == matched_subscription_list.len()
 // @enc UserDefinedDataWriter::remove_matched_subscription
 // @enc PublicationMatchedStatus::get
 #[kani::proof]
-#[kani::unwind(4)]
+#[kani::unwind(2)]
 #[kani::stub(critical_section::acquire, super::support_cs::cs_acquire)]
 #[kani::stub(critical_section::release, super::support_cs::cs_release)]
 fn c16_kernel_writer_unmatch_and_read() {
     s1::link_drop_glue();
     let mut w = standalone_writer();
-    let n: usize = kani::any();
-    kani::assume(n <= MAXN);
+    // list lengths are constants of the harness (a push / remove at a symbolic length is a 600-byte write through a
+    // symbolic pointer: measured out of memory at 10 GB)
+    let n: usize = MAXN;
     let (g1, g2, g3) = (s1::remote_reader_guid(1, 1), s1::remote_reader_guid(2, 1), s1::remote_reader_guid(3, 1));
-    if n >= 1 {
-        w.matched_subscription_list.push(s1::subscription(g1, true));
-    }
-    if n >= 2 {
-        w.matched_subscription_list.push(s1::subscription(g2, true));
-    }
+    w.matched_subscription_list.push(s1::subscription(g1, true));
     w.publication_matched_status = any_pub_status(n);
     let before = w.publication_matched_status.clone();
     let which: u8 = kani::any();
@@ -150,25 +146,76 @@ fn c16_kernel_writer_unmatch_and_read() {
     assert!(s.current_count_change == 0 && s.total_count_change == 0, "C16: reading the status resets the change fields");
     assert!(s.current_count == read.current_count && s.total_count == read.total_count, "C16: reading the status keeps the counts");
     kani::cover!(was && which == 0, "matched subscription removed");
-    kani::cover!(!was && n == 1, "unmatched handle");
+    kani::cover!(!was, "unmatched handle");
     core::mem::forget(w);
+}
+
+fn writer_unmatch_proxy(matched: bool) {
+    // The whole effect of remove_discovered_reader on a writer is `data_writer.remove_matched_subscription(&handle)`
+    // (+ the status condition), see discovery_methods.rs:1313-1345 (source guard in vlib/ptab/part1.py).
+    let mut w = standalone_writer();
+    let g1 = s1::remote_reader_guid(1, 1);
+    s1::match_reader(&mut w, g1, true);
+    let last: i64 = kani::any();
+    kani::assume(last >= 1);
+    w.writer.last_change_sequence_number = last;
+    let g = if matched { g1 } else { s1::remote_reader_guid(3, 1) };
+
+    w.remove_matched_subscription(&handle_of(g));
+
+    assert!(sub_listed(&w, g1) == !matched, "C16: the reader leaves the matched set iff it is the disposed one");
+    assert!(w.publication_matched_status.current_count == w.matched_subscription_list.len() as i32, "C16: current_count equals the number of matched readers");
+    let acked = w.writer.transport_writer.is_change_acknowledged(last);
+    let proxy = has_reader_proxy(&mut w, g1);
+    assert!(proxy == !matched, "C16: the RTPS reader proxy (destination of DATA / HEARTBEAT / GAP) exists iff the reader is still matched");
+    assert!(acked == matched, "C16: an unmatched reliable reader no longer holds back acknowledgement (wait_for_acknowledgments)");
+    kani::cover!(true, "end reached");
+    core::mem::forget(w);
+}
+
+// @check props=C16,C03 tier=quick known=KF-C16-3
+// @desc KNOWN FINDING: when a matched reliable reader is deleted (SEDP disposal -> remove_discovered_reader -> UserDefinedDataWriter::remove_matched_subscription) the DDS-level match and the counters are updated but the RTPS reader proxy stays in the writer (delete_matched_reader is never called on this path): DATA / HEARTBEAT / GAP keep being addressed to the deleted reader, and is_change_acknowledged(last) stays false for ever, so wait_for_acknowledgments (parked before or issued after the deletion) never completes
+// @bounds one writer (stand-alone entity), one matched reliable reader that acknowledged nothing; last written sequence number in [1, i64::MAX]
+// @assume trigger: the disposed reader is matched with the writer
+// @assume the match is installed with the statements of the success branch of process_discovered_readers (list push, four counter updates, add_matched_reader)
+// @enc UserDefinedDataWriter::remove_matched_subscription
+// @enc RtpsStatefulWriter::is_change_acknowledged
+// @enc RtpsStatefulWriter::on_acknack_submessage_received
+#[kani::proof]
+#[kani::unwind(2)]
+#[kani::stub(critical_section::acquire, super::support_cs::cs_acquire)]
+#[kani::stub(critical_section::release, super::support_cs::cs_release)]
+fn c16_kernel_writer_unmatch_proxy__known() {
+    s1::link_drop_glue();
+    writer_unmatch_proxy(true);
+}
+
+// @check props=C16,C03 tier=quick
+// @desc sibling of KF-C16-3 with the trigger negated: disposal of a reader that is NOT matched with the writer: matched set, counters and the RTPS proxy of the matched reader are unchanged and the matched reliable reader still holds back acknowledgement
+// @bounds as c16_kernel_writer_unmatch_proxy__known
+// @assume negated trigger: the disposed reader is not matched with the writer
+// @enc UserDefinedDataWriter::remove_matched_subscription
+// @enc RtpsStatefulWriter::is_change_acknowledged
+#[kani::proof]
+#[kani::unwind(2)]
+#[kani::stub(critical_section::acquire, super::support_cs::cs_acquire)]
+#[kani::stub(critical_section::release, super::support_cs::cs_release)]
+fn c16_kernel_writer_unmatch_proxy__rest() {
+    s1::link_drop_glue();
+    writer_unmatch_proxy(false);
 }
 
 fn reader_add(replace: bool) {
     let mut r = standalone_reader();
     let (g1, g2) = (s1::remote_writer_guid(1, 1), s1::remote_writer_guid(2, 1));
-    let n: usize = kani::any();
-    kani::assume(n <= 1);
-    if n == 1 {
-        r.reader.matched_publication_list.push(s1::publication(g1));
-    }
+    let n: usize = 1;
+    r.reader.matched_publication_list.push(s1::publication(g1));
     r.subscription_matched_status = any_sub_status(n);
     let before = r.subscription_matched_status.clone();
     // the announcement processed by process_discovered_writers: a new writer, or (replace) a writer that is already
     // matched whose announcement changed (e.g. ownership strength): `matched_publication_list.contains(&data)` is then
     // false and the caller goes on to add_matched_publication
     let g = if replace { g1 } else { g2 };
-    kani::assume(!replace || n == 1);
     let mut data = s1::publication(g);
     data.ownership_strength.value = 5;
     let already = pub_listed(&r, g);
@@ -196,7 +243,7 @@ fn reader_add(replace: bool) {
 // @assume trigger: the key of the added publication is already in matched_publication_list
 // @enc UserDefinedDataReader::add_matched_publication
 #[kani::proof]
-#[kani::unwind(4)]
+#[kani::unwind(2)]
 #[kani::stub(critical_section::acquire, super::support_cs::cs_acquire)]
 #[kani::stub(critical_section::release, super::support_cs::cs_release)]
 fn c16_kernel_reader_match__known() {
@@ -205,12 +252,12 @@ fn c16_kernel_reader_match__known() {
 }
 
 // @check props=C16 tier=quick
-// @desc sibling of KF-C16-4 with the trigger negated: add_matched_publication of a writer that is NOT yet matched (0-1 other matched writers, any consistent counters): the entry is appended, current_count == list length, current_count_change / total_count / total_count_change each grow by exactly 1
-// @bounds 0-1 matched publications before the step; counters any consistent values
+// @desc sibling of KF-C16-4 with the trigger negated: add_matched_publication of a writer that is NOT yet matched (1 other matched writer, any consistent counters): the entry is appended, current_count == list length, current_count_change / total_count / total_count_change each grow by exactly 1
+// @bounds 1 matched publication before the step; counters any consistent values
 // @assume negated trigger: the key of the added publication is not in matched_publication_list
 // @enc UserDefinedDataReader::add_matched_publication
 #[kani::proof]
-#[kani::unwind(4)]
+#[kani::unwind(2)]
 #[kani::stub(critical_section::acquire, super::support_cs::cs_acquire)]
 #[kani::stub(critical_section::release, super::support_cs::cs_release)]
 fn c16_kernel_reader_match__rest() {
@@ -219,27 +266,21 @@ fn c16_kernel_reader_match__rest() {
 }
 
 // @check props=C16 tier=quick
-// @desc reader-side kernel: remove_matched_publication(handle) on a reader with 0-1 matched publications and any consistent counters (handle matched or not): mirror of the writer-side kernel, plus get_subscription_matched_status reports the counters and resets the change fields
-// @bounds 0-1 matched publications; counters as in the writer kernel
+// @desc reader-side kernel: remove_matched_publication(handle) on a reader with 1 matched publication and any consistent counters (handle matched or not): mirror of the writer-side kernel, plus get_subscription_matched_status reports the counters and resets the change fields
+// @bounds 1 matched publication; counters as in the writer kernel
 // @assume invariant (re-established, asserted after the step): current_count == matched_publication_list.len()
 // @enc UserDefinedDataReader::remove_matched_publication
 // @enc UserDefinedDataReader::get_subscription_matched_status
 #[kani::proof]
-#[kani::unwind(4)]
+#[kani::unwind(2)]
 #[kani::stub(critical_section::acquire, super::support_cs::cs_acquire)]
 #[kani::stub(critical_section::release, super::support_cs::cs_release)]
 fn c16_kernel_reader_unmatch_and_read() {
     s1::link_drop_glue();
     let mut r = standalone_reader();
-    let n: usize = kani::any();
-    kani::assume(n <= MAXN);
+    let n: usize = MAXN;
     let (g1, g2, g3) = (s1::remote_writer_guid(1, 1), s1::remote_writer_guid(2, 1), s1::remote_writer_guid(3, 1));
-    if n >= 1 {
-        r.reader.matched_publication_list.push(s1::publication(g1));
-    }
-    if n >= 2 {
-        r.reader.matched_publication_list.push(s1::publication(g2));
-    }
+    r.reader.matched_publication_list.push(s1::publication(g1));
     r.subscription_matched_status = any_sub_status(n);
     let before = r.subscription_matched_status.clone();
     let which: u8 = kani::any();
@@ -269,7 +310,7 @@ fn c16_kernel_reader_unmatch_and_read() {
     assert!(s.current_count_change == 0 && s.total_count_change == 0, "C16: reading the status resets the change fields");
     assert!(s.current_count == read.current_count && s.total_count == read.total_count, "C16: reading the status keeps the counts");
     kani::cover!(was && which == 0, "matched publication removed");
-    kani::cover!(!was && n == 1, "unmatched handle");
+    kani::cover!(!was, "unmatched handle");
     core::mem::forget(r);
 }
 
@@ -341,7 +382,7 @@ fn writer_reader_disposed(disposed_matched: bool, check_proxy: bool) {
 // @enc UserDefinedDataWriter::remove_matched_subscription
 // @enc DcpsDomainParticipant::get_publication_matched_status
 #[kani::proof]
-#[kani::unwind(4)]
+#[kani::unwind(2)]
 #[kani::stub(critical_section::acquire, super::support_cs::cs_acquire)]
 #[kani::stub(critical_section::release, super::support_cs::cs_release)]
 #[kani::stub(tracing::level_filters::LevelFilter::current, super::support_qos::tracing_off)]
@@ -358,7 +399,7 @@ fn c16_writer_reader_disposed_counts() {
 // @enc DcpsDomainParticipant::remove_discovered_reader
 // @enc RtpsStatefulWriter::on_acknack_submessage_received
 #[kani::proof]
-#[kani::unwind(4)]
+#[kani::unwind(2)]
 #[kani::stub(critical_section::acquire, super::support_cs::cs_acquire)]
 #[kani::stub(critical_section::release, super::support_cs::cs_release)]
 #[kani::stub(tracing::level_filters::LevelFilter::current, super::support_qos::tracing_off)]
@@ -374,7 +415,7 @@ fn c16_writer_reader_disposed_proxy__known() {
 // @assume stub: tracing LevelFilter::current() returns OFF
 // @enc DcpsDomainParticipant::remove_discovered_reader
 #[kani::proof]
-#[kani::unwind(4)]
+#[kani::unwind(2)]
 #[kani::stub(critical_section::acquire, super::support_cs::cs_acquire)]
 #[kani::stub(critical_section::release, super::support_cs::cs_release)]
 #[kani::stub(tracing::level_filters::LevelFilter::current, super::support_qos::tracing_off)]
@@ -424,7 +465,7 @@ fn writer_participant_removed(removed: u8) {
 // @assume trigger: at least one matched reader belongs to the departed participant
 // @enc DcpsDomainParticipant::remove_discovered_participant
 #[kani::proof]
-#[kani::unwind(4)]
+#[kani::unwind(2)]
 #[kani::stub(critical_section::acquire, super::support_cs::cs_acquire)]
 #[kani::stub(critical_section::release, super::support_cs::cs_release)]
 fn c16_writer_participant_removed__known() {
@@ -438,7 +479,7 @@ fn c16_writer_participant_removed__known() {
 // @assume negated trigger: no matched reader belongs to the departed participant
 // @enc DcpsDomainParticipant::remove_discovered_participant
 #[kani::proof]
-#[kani::unwind(4)]
+#[kani::unwind(2)]
 #[kani::stub(critical_section::acquire, super::support_cs::cs_acquire)]
 #[kani::stub(critical_section::release, super::support_cs::cs_release)]
 fn c16_writer_participant_removed__rest() {
@@ -466,7 +507,7 @@ fn reader_fixture(p: &mut DcpsDomainParticipant, two: bool, q: u8) -> (InstanceH
 // @enc UserDefinedDataReader::remove_matched_publication
 // @enc DcpsDomainParticipant::get_subscription_matched_status
 #[kani::proof]
-#[kani::unwind(4)]
+#[kani::unwind(2)]
 #[kani::stub(critical_section::acquire, super::support_cs::cs_acquire)]
 #[kani::stub(critical_section::release, super::support_cs::cs_release)]
 #[kani::stub(tracing::level_filters::LevelFilter::current, super::support_qos::tracing_off)]
@@ -550,7 +591,7 @@ fn reader_participant_removed(removed: u8) {
 // @assume trigger: at least one matched writer belongs to the departed participant
 // @enc DcpsDomainParticipant::remove_discovered_participant
 #[kani::proof]
-#[kani::unwind(4)]
+#[kani::unwind(2)]
 #[kani::stub(critical_section::acquire, super::support_cs::cs_acquire)]
 #[kani::stub(critical_section::release, super::support_cs::cs_release)]
 fn c16_reader_participant_removed__known() {
@@ -564,7 +605,7 @@ fn c16_reader_participant_removed__known() {
 // @assume negated trigger: no matched writer belongs to the departed participant
 // @enc DcpsDomainParticipant::remove_discovered_participant
 #[kani::proof]
-#[kani::unwind(4)]
+#[kani::unwind(2)]
 #[kani::stub(critical_section::acquire, super::support_cs::cs_acquire)]
 #[kani::stub(critical_section::release, super::support_cs::cs_release)]
 fn c16_reader_participant_removed__rest() {
